@@ -474,6 +474,43 @@ pub fn run(tier: &str) -> i32 {
         }
         total += count;
     }
+    // ... every pair of ISO-8859-1 characters of the upper half (as a base, as an extension, and in the middle of a
+    // name), and every triple over the characters that matter to a UTF-8 decoder (continuation bytes, 2-, 3- and
+    // 4-byte lead bytes, invalid bytes): the stored bytes are Latin-1, whatever they look like as UTF-8
+    {
+        let hi: Vec<char> = (0x80u32..=0xFF).map(|c| char::from_u32(c).unwrap()).collect();
+        let parts = par_ranges((hi.len() * hi.len()) as u64, 16, |a, b| {
+            let mut bad: Vec<Violation> = Vec::new();
+            for x in a..b {
+                let (p, q) = (hi[(x as usize) / hi.len()], hi[(x as usize) % hi.len()]);
+                for s in [format!("{}{}", p, q), format!("X.{}{}", p, q), format!("A{}{}B.C", p, q)] {
+                    if let Some(v) = check_name(&s) {
+                        if !bad.iter().any(|y| y.sig == v.sig) {
+                            bad.push(v);
+                        }
+                    }
+                }
+            }
+            bad
+        });
+        for b in parts {
+            name_viols.extend(b);
+        }
+        total += 3 * (hi.len() * hi.len()) as u64;
+        let reps: Vec<char> = [0x80u32, 0x82, 0xA9, 0xAC, 0xBF, 0xC0, 0xC2, 0xC3, 0xDF, 0xE0, 0xE2, 0xEF, 0xF0, 0xF4, 0xF5, 0xFF].iter().map(|&c| char::from_u32(c).unwrap()).collect();
+        let r = reps.len();
+        for x in 0..r * r * r {
+            let s: String = [reps[x / (r * r)], reps[(x / r) % r], reps[x % r]].iter().collect();
+            for s in [s.clone(), format!("{}.{}", s, s)] {
+                total += 1;
+                if let Some(v) = check_name(&s) {
+                    if !name_viols.iter().any(|y| y.sig == v.sig) {
+                        name_viols.push(v);
+                    }
+                }
+            }
+        }
+    }
     // ... and all strings up to length 12 over a small base alphabet with one arbitrary-class character inserted anywhere
     let base: Vec<char> = if tier == "quick" { vec!['a', '.'] } else { vec!['a', '1', '.'] };
     let bk = base.len() as u64;
